@@ -276,10 +276,18 @@ ENVS = [{"COLUMNS": "20"}, {"COLUMNS": "1", "LINES": "1"}, {"COLUMNS": "0"}, {"C
         {"HOME": "/nonexistent"}, {"PYTHONWARNINGS": "default"}]
 
 
+_ANSI = __import__("re").compile(r"\x1b\[[0-9;]*[A-Za-z]")
+
+
+def _words(text):
+    """what the output SAYS, whatever its layout: colour codes removed, white space (wrapping, padding) collapsed"""
+    return _ANSI.sub("", text).replace("(", "").replace(")", "").split()
+
+
 def cli_environments(ctx, cases, label):
     """cases: (argv, stdin lines).  The real command under environment variables a terminal session may have (terminal
     width / height, TERM, colour conventions, locale, optimisation) and with stdout on a pseudo-terminal: exit status 0 and
-    exactly the output of the plain piped run."""
+    the output of the plain piped run (compared by what it says: colour codes and wrapping / padding may follow the terminal)."""
     for i, (argv, lines) in enumerate(cases):
         text = "".join(x + "\n" for x in lines)
         rc0, out0, err0 = run_cli(argv, text)
@@ -288,7 +296,10 @@ def cli_environments(ctx, cases, label):
         for env, tty in variants:
             rc, out, err = run_cli(argv, text, env, tty)
             ctx.count()
-            if rc != rc0 or out != out0 or (not tty and err != err0):
+            same = rc == rc0 and _words(out) == _words(out0) and (tty or _words(err) == _words(err0))
+            if same and out != out0 and hasattr(ctx, "aux"):
+                ctx.aux("cli-layout-depends-on-terminal-or-environment", {"argv": argv, "env": env, "tty": tty}, out0[-200:], out[-200:])
+            if not same:
                 ctx.violation("%s:cli-depends-on-terminal-or-environment" % label,
                               "the calculator's exit status / output differs %s%s" % ("with stdout on a terminal " if tty else "", ("under %s" % env) if env else ""),
                               {"argv": argv, "stdin": lines}, [rc0, out0[-300:]], [rc, out[-300:], err[-300:]],
@@ -301,6 +312,6 @@ def replay_env(r):
     text = "".join(x + "\n" for x in r["stdin"])
     rc0, out0, err0 = run_cli(r["argv"], text)
     rc, out, err = run_cli(r["argv"], text, r.get("env"), r.get("tty"))
-    ok = rc == rc0 and out == out0
+    ok = rc == rc0 and _words(out) == _words(out0)
     return ok, "cvss_calculator %r under env %r, tty=%r: exit %r (plain run %r), output %s" % (
-        r["argv"], r.get("env"), r.get("tty"), rc, rc0, "identical to the plain run" if out == out0 else "DIFFERS: %r vs plain %r" % (out[-300:], out0[-300:]))
+        r["argv"], r.get("env"), r.get("tty"), rc, rc0, "says the same as the plain run" if ok else "DIFFERS: %r vs plain %r" % (out[-300:], out0[-300:]))
